@@ -197,24 +197,29 @@ def evaluate_cli_one(structs, tag="c11"):
     if text is None:
         return [Outcome({"fields": s["fields"]}, False, False, None, {"cli": "no types.ts", "rc": rc, "out": out[-500:]}) for s in structs]
     got = read_types_ts(text)
-    # evaluate the file's chains through the same oracle: re-use evaluate() for model/harness, then swap in the file's text
+    return judge_chains(structs, [got.get("S%d" % k, {}) for k in range(len(structs))])
+
+
+def judge_chains(structs, gots, via="cli"):
+    """gots[k] = {field name: chain text found in the generated file} for struct k. The file's chains go through the
+    extracted oracle (declared attributes of struct k) and are compared with the model's chains."""
     base = evaluate(structs, check_whole=False)
     sexps = []
-    for k, s in enumerate(structs):
+    for s, got in zip(structs, gots):
         impls = []
         for f in s["fields"]:
-            c = got.get("S%d" % k, {}).get(f["name"])
+            c = got.get(f["name"])
             impls.append(None if c is None else [G.Q(c)])
         sexps.append(G.sx([[G.field_sx(f) for f in s["fields"]], impls]))
     res = vlib.run_runner("c11-fields", sexps)
     outs = []
-    for k, (s, b, r) in enumerate(zip(structs, base, res)):
+    for s, got, b, r in zip(structs, gots, base, res):
         ok = True
         corr = b.corr
         kfs = []
         details = []
-        for f, m, bd in zip(s["fields"], r, [None] * len(s["fields"])):
-            c = got.get("S%d" % k, {}).get(f["name"])
+        for f, m in zip(s["fields"], r):
+            c = got.get(f["name"])
             flags = m[3]
             f_ok = c is not None and m[4] == "true"
             # correspondence: file chain reads like the model's chain
@@ -231,7 +236,57 @@ def evaluate_cli_one(structs, tag="c11"):
             if not f_ok or len(details) < 2:
                 details.append({"field": f["name"], "file": c, "model": m[0], "ok": f_ok})
         kf = kfs[0] if kfs and all(x is not None for x in kfs) else None
-        outs.append(Outcome({"fields": s["fields"], "via": "cli"}, corr, ok, kf, {"fields": details}, True))
+        outs.append(Outcome({"fields": s["fields"], "via": via}, corr, ok, kf, {"fields": details}, True))
+    return outs
+
+
+# ---------------------------------------------------------------- run histories into one output directory
+def run_history(h, tag="c11h"):
+    """h = {"steps": [{"structs": [...], "force": bool}, ...]}: the real binary is run once per step into the SAME
+    output directory, the source being rewritten between the runs. Returns per step the chains found in types.ts."""
+    texts = []
+    with vlib.Sandbox(tag) as sb:
+        sb.write("proj/src-tauri/Cargo.toml", "[package]\nname = \"p\"\nversion = \"0.1.0\"\nedition = \"2021\"\n")
+        for st in h["steps"]:
+            sb.write("proj/src-tauri/src/lib.rs", cli_project(st["structs"]))
+            args = ["generate", "-p", sb.path("proj/src-tauri/src"), "-o", sb.path("out"), "-v", "zod"] + (["--force"] if st["force"] else [])
+            rc, out = sb.cli(args, cwd=sb.path("proj"))
+            if rc == -1:
+                raise vlib.BuildError("c11 history: the binary timed out")
+            try:
+                texts.append((rc, open(sb.path("out/types.ts"), encoding="utf-8").read()))
+            except OSError:
+                texts.append((rc, None))
+    return texts
+
+
+def evaluate_histories(hists):
+    """After EVERY run of a history the schema on disk must reflect the attributes declared at that moment."""
+    vlib.build_repo_bin()
+    results = vlib.pmap(run_history, hists, workers=8)
+    structs, gots, index = [], [], []
+    for hi, (h, texts) in enumerate(zip(hists, results)):
+        for si, (st, (rc, text)) in enumerate(zip(h["steps"], texts)):
+            got = read_types_ts(text) if text is not None else {}
+            for k, s in enumerate(st["structs"]):
+                structs.append(s)
+                gots.append(got.get("S%d" % k, {}))
+                index.append((hi, si, k))
+    judged = judge_chains(structs, gots, via="history")
+    outs = []
+    for hi, h in enumerate(hists):
+        ok = corr = True
+        det = []
+        for (a, si, k), o in zip(index, judged):
+            if a != hi:
+                continue
+            ok = ok and o.ok
+            corr = corr and o.corr
+            if not (o.ok and o.corr):
+                det.append({"step": si, "force": h["steps"][si]["force"], "struct": k, "fields": o.detail["fields"],
+                            "src": G.struct_rust(h["steps"][si]["structs"][k]["fields"], "S%d" % k)})
+        outs.append(Outcome({"steps": h["steps"], "edits": h.get("edits"), "via": "history"}, corr, ok, None,
+                            {"failing": det[:4], "edits": h.get("edits")}, True))
     return outs
 
 
@@ -246,7 +301,8 @@ def run(rep):
     rng = random.Random(rep.seed)
     quick = rep.tier == "quick"
     cor = corpus_cases()
-    rep.add("corpus", evaluate([c for _, c in cor]), sample_count=3)
+    rep.add("corpus", evaluate([c for _, c in cor if "steps" not in c]), sample_count=3)
+    rep.add("corpus-history", evaluate_histories([c for _, c in cor if "steps" in c]))
     ex = G.exhaustive_structs()
     rep.add("exhaustive", evaluate(ex))
     rep.add("offsets", evaluate(G.offset_structs(rep.tier)))
@@ -261,6 +317,9 @@ def run(rep):
     n_cli = 300 if quick else 2000
     cli = ex + orders[:60] + clean[:n_cli] + [s for s in wild if no_panic_struct(s)][:n_cli]
     rep.add("cli", evaluate_cli(cli))
+    hists = G.history_cases(rng, 40 if quick else 400)
+    rep.add("history", evaluate_histories(hists))
+    rep.extra["history_edits"] = {k: sum(1 for h in hists for e in h["edits"] if e == k) for k in sorted({e for h in hists for e in h["edits"]})}
     nf = lambda ss: sum(len(s["fields"]) for s in ss)
     rep.extra["distribution"] = {
         "structs": {"corpus": len(cor), "exhaustive": len(ex), "clean": n_clean, "wild": n_wild, "cli": len(cli)},
@@ -275,7 +334,9 @@ def replay(rep, payload):
     items = payload.get("disagreeing_cases") or [payload]
     for it in items:
         c = it["case"]
-        if c.get("via") == "cli":
+        if c.get("via") == "history":
+            rep.add("history", evaluate_histories([{"steps": c["steps"], "edits": c.get("edits") or []}]))
+        elif c.get("via") == "cli":
             rep.add("cli", evaluate_cli([{"fields": c["fields"]}]))
         else:
             rep.add(it.get("stream", "replay"), evaluate([{"fields": c["fields"]}]))
